@@ -637,11 +637,39 @@ func (cx *Ctx) checkRedirectOctetsShape(r *Report) {
 			}
 		}
 	}
+	// ... or octets put together by appending to a byte slice: what the verifier is handed
+	type octCand struct {
+		at ssa.Instruction
+		v  ssa.Value
+	}
+	var ocands []octCand
 	for _, ci := range cands {
-		call := ci.(*ssa.Convert)
+		ocands = append(ocands, octCand{ci, ci.(*ssa.Convert).X})
+	}
+	for _, g := range w.sortedFuncs(lvf.scope) {
+		if g.Pkg != vr.Pkg {
+			continue
+		}
+		for _, c := range callsIn(g) {
+			if f := calleeOf(c); f != nil && w.FuncKey(f) == "signature.ValidateRedirect" && len(c.Common().Args) > 1 {
+				a := c.Common().Args[1]
+				if cc, isCall := a.(*ssa.Call); isCall {
+					if b, isB := cc.Call.Value.(*ssa.Builtin); isB && b.Name() == "append" {
+						ocands = append(ocands, octCand{c.(ssa.Instruction), a})
+					}
+				}
+				if _, isPhi := a.(*ssa.Phi); isPhi {
+					ocands = append(ocands, octCand{c.(ssa.Instruction), a})
+				}
+			}
+		}
+	}
+	for _, oc := range ocands {
+		ci := oc.at
+		call := ci
 		// the converted string may be chosen among several (a local assigned in both arms of a test): each
 		// alternative is judged with the atoms holding where it is chosen
-		for _, alt := range cx.strPartAlts(call.X, ci) {
+		for _, alt := range cx.strPartAlts(oc.v, ci) {
 			parts := mergeLits(alt.Parts)
 			if len(parts) == 0 || !parts[0].IsLit || !strings.HasPrefix(parts[0].Lit, "SAMLRequest=") {
 				continue
